@@ -57,3 +57,8 @@ func VHRingNew() {
 		v.Assert(len(q.Values()) == 0, "C15:new-values")
 	}
 }
+
+func VHIter() {
+	q, pre := VGQueue()
+	containers.VIterStep(func() containers.IteratorWithIndex[int] { return q.Iterator() }, pre, q)
+}
